@@ -199,6 +199,8 @@ class Contract:
             out.append('__CPROVER_ensures(%s) /* %s */' % (e, lab))
         out.append('__CPROVER_ensures(model_mxcsr == __CPROVER_old(model_mxcsr) && __CPROVER_rounding_mode == __CPROVER_old(__CPROVER_rounding_mode)) /* C11: floating-point environment left as found */')
         out.append('__CPROVER_assigns(%s)' % '; '.join(list(self.assigns) + ['model_mxcsr', '__CPROVER_rounding_mode']))
+        if getattr(self, 'frees', None):
+            out.append('__CPROVER_frees(%s)' % '; '.join(self.frees))
         return '\n'.join(out) + '\n'
 
 
@@ -1274,6 +1276,145 @@ def denom_variants(k, tier):
     return out
 
 
+
+# --------------------------------------------------------------------------------------------
+# C16  mixed-signedness scalar comparisons: compare the mathematical integer values
+# --------------------------------------------------------------------------------------------
+CMPX = {'cmp_equal': '==', 'cmp_not_equal': '!=', 'cmp_less': '<', 'cmp_less_equal': '<=', 'cmp_greater': '>', 'cmp_greater_equal': '>='}
+
+
+@family
+def f_cmp_mixed(c):
+    if c.kind != 'function' or c.name not in CMPX or len(c.P) != 2 or c.RT.kind != 'bool':
+        return None
+    a, b = c.PT
+    if a.kind != 'scalar' or b.kind != 'scalar' or not a.isint or not b.isint or a.bits != b.bits:
+        return None
+    if a.bits == 64:
+        # mathematical comparison of a 64-bit signed with a 64-bit unsigned value: in 128-bit signed arithmetic
+        va = '(__int128)%s' % ('(int64_t)%s' % c.a(0) if a.signed else '(uint64_t)%s' % c.a(0))
+        vb = '(__int128)%s' % ('(int64_t)%s' % c.a(1) if b.signed else '(uint64_t)%s' % c.a(1))
+    else:
+        va = 'spec_sx(%s, %d)' % (a.lane(c.a(0), 0), a.bits) if a.signed else '(int64_t)%s' % a.lane(c.a(0), 0)
+        vb = 'spec_sx(%s, %d)' % (b.lane(c.a(1), 0), b.bits) if b.signed else '(int64_t)%s' % b.lane(c.a(1), 0)
+    return Contract('cmp_mixed_' + c.name, ['C16'], ensures=[(c.name, '%s == (_Bool)(%s %s %s)' % (RV, va, CMPX[c.name], vb))], cxx='avel::%s({0}, {1})' % c.name)
+
+
+# --------------------------------------------------------------------------------------------
+# C17  conversions
+# --------------------------------------------------------------------------------------------
+@family
+def f_convert(c):
+    if c.kind == 'function' and c.name == 'convert' and len(c.P) == 1 and not c.P[0]['ref']:
+        m = re.match(r'^Arr_(\w+)_(\d+)$', c.fn['ret'])
+        if not m or int(m.group(2)) != 1:
+            return None
+        src = c.PT[0]
+        dst = T(m.group(1), c.S)
+        if src.kind == 'vec' and dst.kind == 'vec' and src.W == dst.W and src.isint and dst.isint:
+            # static_cast semantics between integer element types: truncate or extend by the SOURCE signedness
+            ens = []
+            for i in range(src.W):
+                v = 'spec_sx(%s, %d)' % (src.lane(c.a(0), i), src.bits) if src.signed else '(int64_t)%s' % src.lane(c.a(0), i)
+                ens.append(('convert lane %d' % i, '%s == ((uint64_t)(%s) & spec_mask(%d))' % (dst.lane('(%s)._M_elems[0]' % RV, i), v, dst.bits)))
+            return Contract('convert_vec', ['C17'], ensures=ens, cxx='avel::convert<%s>({0})' % dst.cxx())
+        if src.kind == 'mask' and dst.kind == 'mask' and src.W == dst.W:
+            ens = [('mask well-formed', dst.wf('(%s)._M_elems[0]' % RV))]
+            ens += [('convert mask lane %d' % i, '%s == %s' % (dst.view('(%s)._M_elems[0]' % RV, i), src.view(c.a(0), i))) for i in range(src.W)]
+            return Contract('convert_mask', ['C17'], ensures=ens, cxx='avel::convert<%s>({0})' % dst.cxx())
+        return None
+    if c.kind == 'ctor' and c.OT and len(c.P) == 1 and not c.P[0]['ref']:
+        src, dst = c.PT[0], c.OT
+        if src.kind == 'vec' and dst.kind == 'vec' and src.W == dst.W and src.ct != dst.ct and src.isint and dst.isint:
+            ens = []
+            for i in range(src.W):
+                v = 'spec_sx(%s, %d)' % (src.lane(c.a(0), i), src.bits) if src.signed else '(int64_t)%s' % src.lane(c.a(0), i)
+                ens.append(('Vector(Vector<U>) lane %d' % i, '%s == ((uint64_t)(%s) & spec_mask(%d))' % (dst.lane(RV, i), v, dst.bits)))
+            return Contract('convert_ctor_vec', ['C17'], ensures=ens, cxx='%s({0})' % dst.cxx())
+        if src.kind == 'mask' and dst.kind == 'mask' and src.W == dst.W and src.ct != dst.ct:
+            ens = [('mask well-formed', dst.wf(RV))]
+            ens += [('Vector_mask(Vector_mask<U>) lane %d' % i, '%s == %s' % (dst.view(RV, i), src.view(c.a(0), i))) for i in range(src.W)]
+            return Contract('convert_ctor_mask', ['C17'], ensures=ens, cxx='%s({0})' % dst.cxx())
+    return None
+
+
+
+# --------------------------------------------------------------------------------------------
+# C20  prefetch: any pointer, any count, no access, termination
+# --------------------------------------------------------------------------------------------
+@family
+def f_prefetch(c):
+    if c.kind != 'function' or c.name not in ('prefetch_read', 'prefetch_write') or len(c.P) != 2:
+        return None
+    if not c.P[0]['ctype'].endswith('*') or c.P[1]['ctype'] not in ('uint64_t', 'size_t'):
+        return None
+    n = c.P[1]['name']
+    lvl = c.targs[0] if c.targs else 0
+    typed = len(c.targs) > 1
+    esz = {'int32_t*': 4, 'double*': 8}.get(c.P[0]['ctype'], 1)
+    # counts whose byte size reaches the last cache line before SIZE_MAX are excluded: the loop would need > 2^57 iterations
+    # to get there, and the index would wrap instead of terminating -- no caller can observe the difference
+    k = Contract('prefetch' + ('_typed' if typed else ''), ['C20'], requires=['%s <= (size_t)0xffffffffffffff00ull / %d' % (n, esz)], ensures=[], assigns=[],
+                 cxx=None)
+    if typed:
+        # modular: the untyped overload is replaced by its contract (its pre-condition is checked at the call site)
+        k.replace_callees = lambda f: f.get('name') == c.name and len(f.get('targs', [])) == 1
+    if c.fn.get('loops'):
+        # for (i = 0; i < n; i += line): i only grows, stays a multiple of the line size, and the distance to n shrinks
+        k.loops = {1: '    __CPROVER_assigns(i)\n    __CPROVER_loop_invariant(i % increment == 0 && (i == 0 || i - increment < n))\n'
+                      '    __CPROVER_decreases((i < n) ? (n - i) : 0)\n'.replace('(n', '(%s' % n).replace('< n', '< %s' % n)}
+    k.harness = {'pre': ['%s p_in;' % c.P[0]['ctype'], 'size_t n_in = nondet_sz();'], 'args': ['p_in', 'n_in']}
+    return k
+
+
+# --------------------------------------------------------------------------------------------
+# C18  Aligned_allocator
+# --------------------------------------------------------------------------------------------
+def alloc_info(owner, S, P):
+    m = re.match(r'^Alloc_(\w+)_(\d+)$', owner or '')
+    if not m:
+        return None
+    return int(m.group(2))
+
+
+@family
+def f_allocator(c):
+    if c.kind != 'method' or not (c.fn.get('owner') or '').startswith('Alloc_'):
+        return None
+    A = alloc_info(c.fn['owner'], c.S, c.P)
+    if c.name == 'allocate' and c.P and c.P[0]['ctype'] in ('uint64_t', 'size_t') and c.fn['ret'].endswith('*'):
+        et = c.fn['ret'][:-1]
+        n = c.P[0]['name']
+        ens = [('result aligned to the allocator alignment', '((avm_base_mod + (size_t)__CPROVER_POINTER_OFFSET(%s)) %% %d) == 0' % (RV, A)),
+               ('n elements are writable', '__CPROVER_w_ok(%s, %s * sizeof(%s))' % (RV, n, et))]
+        k = Contract('alloc_allocate', ['C18'], requires=['%s <= (size_t)(1u << 24)' % n], ensures=ens, assigns=['avm_base_mod'], cxx=None)
+        k.harness = {'pre': ['%s self_obj;' % c.fn['owner'], 'size_t n_in = nondet_sz();'] + (['void* hint = 0;'] if len(c.P) == 2 else []),
+                     'args': ['&self_obj', 'n_in'] + (['hint'] if len(c.P) == 2 else [])}
+        return k
+    if c.name == 'deallocate' and len(c.P) == 2 and c.P[0]['ctype'].endswith('*'):
+        et = c.P[0]['ctype'][:-1]
+        alloc = None
+        for cn, f in c.db['functions'].items():
+            if f.get('name') == 'allocate' and f.get('owner') == c.fn['owner'] and len(f.get('params', [])) == 1 and not f.get('error'):
+                alloc = cn
+        if not alloc:
+            return None
+        k = Contract('alloc_deallocate', ['C18'], ensures=[], assigns=['avm_base_mod', '__CPROVER_object_whole(%s)' % c.P[0]['name']], cxx=None)
+        k.extra_roots = [alloc]
+        k.frees = ['avm_blk_base']
+        # history: allocate a second, still live block b; fill every byte of both; release a; b must be intact and still writable
+        k.harness = {'pre': ['%s self_obj;' % c.fn['owner'], 'size_t n_in = nondet_sz();', '__CPROVER_assume(n_in <= (size_t)(1u << 24));',
+                             '%s* blk = %s(&self_obj, n_in);' % (et, alloc),
+                             'avm_blk_base = (char*)blk - __CPROVER_POINTER_OFFSET(blk);',
+                             '__CPROVER_havoc_slice(blk, n_in * sizeof(%s));' % et],
+                     'args': ['&self_obj', 'blk', 'n_in']}
+        k.cbmc_flags = ['--memory-leak-check']
+        return k
+    if c.name in ('operator==', 'operator!=') and len(c.P) == 1:
+        return Contract('alloc_' + c.name, ['C18'], ensures=[('allocators always compare equal', '%s == %d' % (RV, 1 if c.name == 'operator==' else 0))], cxx=None)
+    return None
+
+
 def contract_for(fn, db):
     if fn.get('error'):
         return None
@@ -1317,6 +1458,10 @@ PROPERTY_NAMES = {
     'C11': {'ceil', 'floor', 'trunc', 'round', 'nearbyint', 'rint'},
     'C12': {'frexp', 'ldexp', 'scalbn', 'ilogb', 'logb', 'frac', 'fmax', 'fmin', 'fdim'},
     'C13': {'fpclassify', 'isnan', 'isinf', 'isfinite', 'isnormal', 'signbit', 'isgreater', 'isgreaterequal', 'isless', 'islessequal', 'islessgreater', 'isunordered'},
+    'C18': {'allocate', 'deallocate'},
+    'C20': {'prefetch_read', 'prefetch_write'},
+    'C16': set(CMPX),
+    'C17': {'convert'},
     'C14': {'Denominator', 'value'},
     'C15': {'Denominator', 'value'},
     'C08': {'load', 'aligned_load', 'store', 'aligned_store', 'gather', 'scatter', 'to_array', 'extract', 'insert'},
